@@ -319,7 +319,7 @@ package board
 //@ # the undo token: every field read back is the value stored, in MakeMove's order of the setters
 //@ scenario tokenRoundTrip(r *Reverse, fc Depth, cc Castles, ep Square, cp Piece)
 //@   props C03
-//@   requires *r == 0 && 0 <= fc && cc < 16 && 0 <= ep && ep < 64 && cp <= 6
+//@   requires *r == 0 && cc < 16 && 0 <= ep && ep < 64 && cp <= 6
 //@   do inline r.setFiftyCnt(fc)
 //@   do inline r.setCastlingChange(cc)
 //@   do inline r.setCapture(cp)
